@@ -143,7 +143,9 @@ def sync_model(m, real_obs):
         counter, mobs = model_obs(line)
         progressed = False
         for j, (a, b) in enumerate(zip(real_obs, mobs)):
-            if a != b and b in ('wait', 'unwinding'):
+            # a waiter that has been woken, or a cancelled one, runs by itself in the real loop — also when what can be observed of it
+            # stays 'wait' (it moves on from the queue of R to the queue of W): `run` is disabled in the model unless it was woken
+            if b in ('wait', 'unwinding'):
                 r = m.ask(f'rw run {j}')
                 if r != 'DISABLED':
                     line = r
